@@ -482,7 +482,9 @@ const c07IdStart = "abcdefghijklmnopqrstuvwxyzABCDEFGHIJKLMNOPQRSTUVWXYZ_"
 const c07IdChars = c07IdStart + "0123456789"
 
 var c07LookAlikes = []string{"return", "returnx", "return1", "add", "addy", "shl", "shl2", "dbl", "dbl2", "dbl07", "dbl_",
-	"dblx", "dbl1", "dbl1x", "dblD", "_", "__", "x", "i1", "a1", "A", "Z9", "d", "db", "dbL", "Dbl1", "xdbl1", "r", "e", "f0x"}
+	"dblx", "dbl1", "dbl1x", "dblD", "_", "__", "x", "i1", "a1", "A", "Z9", "d", "db", "dbL", "Dbl1", "xdbl1", "r", "e", "f0x",
+	// other spellings of the keywords (the grammar is case-sensitive) and keywords glued to names
+	"DBLE", "DBLx", "dBl_t", "Dblx0", "DBL", "Dbl", "RETURN", "Return", "RETURNx", "ADD", "Add", "ADDy", "SHL", "Shl", "sHl3", "returnadd", "adddbl", "shlx", "E", "e1", "X"}
 
 func c07RandIdent(r *RNG) string {
 	if r.Intn(3) == 0 {
